@@ -57,11 +57,13 @@ def J(n, w):
 def leafsets(pattern, level):
     """Typed leaves: width -> list of specs. level: "full" > "red" > "mini"."""
     if not pattern:
+        # subjects also mention the joker identifiers themselves (a joker facing its own identifier must still be
+        # recorded and checked against its other occurrences)
         if level == "mini":
             return {8: [("id", "a", 8)], 4: [("id", "m", 4)], 16: [("id", "p", 16)], 1: [("id", "c", 1)]}
         if level == "red":
-            return {8: [("id", "a", 8), ("id", "b", 8)], 4: [("id", "m", 4)], 16: [("id", "p", 16)], 1: [("id", "c", 1)]}
-        return {8: [("id", "a", 8), ("id", "b", 8), ("int", 0, 8)], 4: [("id", "m", 4), ("id", "n", 4)],
+            return {8: [("id", "a", 8), J(1, 8)], 4: [("id", "m", 4)], 16: [("id", "p", 16)], 1: [("id", "c", 1)]}
+        return {8: [("id", "a", 8), ("id", "b", 8), ("int", 0, 8), J(1, 8)], 4: [("id", "m", 4), ("id", "n", 4)],
                 16: [("id", "p", 16), ("id", "q", 16)], 1: [("id", "c", 1), ("int", 1, 1)]}
     if level == "mini":
         return {8: [J(1, 8), ("id", "a", 8)], 4: [J(1, 4), ("id", "m", 4)], 16: [J(1, 16), ("id", "p", 16)], 1: [J(1, 1), ("id", "c", 1)]}
